@@ -5,18 +5,659 @@ import Refinery.Model.Convert
 Statement (properties.jsonl): converting a valid Refinery v1 config or rules file yields a v2 file
 that passes v2 validation, in which every non-default v1 setting that still exists in v2 has the
 same effective value.
+
+The code does **not** satisfy this at full strength (`full_statement_refuted`,
+`file_statement_refuted`, `rules_statement_refuted`: witnesses reproduced on the real converter by
+the harness).  What holds is proved under three explicit hypotheses: text the converter writes
+without quotes is read back by YAML as that string (`safe`), an explicit zero is only given where
+zero is the loader's default (`zeroOK`), and the file has no key of a since-deprecated field.
 -/
 namespace Refinery.Props.C38
 open Refinery Refinery.Model.Convert
 
-/-! ## obligations on the regenerated tables (break when the template / metadata / structs change) -/
+/-! ## obligations on the regenerated tables (they break when template / metadata / structs change) -/
 
-/-- **table_total** — every action of the template is a helper the model knows. -/
+/-- **table_total** — every action of the embedded template is a helper the model knows: a new
+helper in the template breaks this obligation instead of being silently skipped. -/
 theorem table_total :
     Gen.Convert.rows.all (fun t => Helper.ofName t.2.2.2.1 != .unknown) = true := by decide
 
-/-- every row's field type is one the model knows -/
+/-- every row's field type (configMeta.yaml) is one the model knows -/
 theorem table_types_known :
     Gen.Convert.rows.all (fun t => FType.ofName t.2.2.2.2.2.2.1 != .other) = true := by decide
+
+/-- **table_defaults_agree** — for every `nonDefaultOnly` / `choice` row the default written in the
+template (the value at which the setting is *omitted*) is the default the v2 loader applies. -/
+theorem table_defaults_agree :
+    Gen.Convert.rows.all (fun t =>
+      let h := Helper.ofName t.2.2.2.1
+      (h != .nonDefaultOnly && h != .choice) ||
+        Eff.ofTuple t.2.2.2.2.2.2.2.2 == Eff.ofTuple t.2.2.2.2.2.2.2.1) = true := by decide
+
+/-- every unit `MemorySize.MarshalText` prints is read back by `UnmarshalText` with the same scalar -/
+theorem mem_units_consistent :
+    Gen.Convert.memUnits.all (fun u => u.1 == u.2.2 && 0 < u.1) = true := by decide
+
+/-- the targets of the two renames of `transformSamplerMap` exist and are durations in every
+sampler struct that has them -/
+theorem rules_rename_targets :
+    Gen.Convert.samplerFields.all (fun f =>
+      (f.2.1 != "clearfrequency" && f.2.1 != "adjustmentinterval") || f.2.2.2.1 == "dur") = true := by decide
+
+/-- which field types a helper can carry (a `nonZero` on a default-true flag, or a scalar helper on
+a list, would not preserve the value) -/
+def helperTypeOK : Helper → FType → Bool
+  | .nonDefaultOnly, ft => ft != .stringarray && ft != .map && ft != .other
+  | .nonEmptyString, ft => ft == .string || ft == .hostport || ft == .url
+  | .nonZero, ft => ft != .defaulttrue && ft != .stringarray && ft != .map && ft != .other
+  | .secondsToDuration, ft => ft == .duration
+  | .memorysize, ft => ft == .memorysize
+  | .choice, ft => ft == .string
+  | .renderStringarray, ft => ft == .stringarray
+  | _, _ => true
+
+/-- **table_helper_types** — every row of the template uses a helper that fits its field's type -/
+theorem table_helper_types :
+    Gen.Convert.rows.all (fun t => helperTypeOK (Helper.ofName t.2.2.2.1) (FType.ofName t.2.2.2.2.2.2.1)) = true := by
+  decide
+
+/-! ## vocabulary of the property -/
+
+/-- the v1 value has the type of the field -/
+def typed (x : Ext) : FType → V1 → Bool
+  | .string, .str _ | .hostport, .str _ | .url, .str _ => true
+  | .int, .int _ => true
+  | .percentage, .int n => n ≤ 100
+  | .bool, .bool _ | .defaulttrue, .bool _ => true
+  | .duration, .str s => (x.dur s).isSome
+  | .memorysize, .int _ => true
+  | .stringarray, .strs _ => true
+  | _, _ => false
+
+/-- text the converter writes without quotes is read back as the same string -/
+def safe (x : Ext) : V1 → Prop
+  | .str s => isPlain s = true → x.yaml s = .str
+  | .strs l => ∀ s ∈ l, x.yaml s = .str
+  | _ => True
+
+/-- an explicit zero is given only where zero is what the loader defaults to -/
+def zeroOK (r : Row) (e : Eff) : Prop := isZeroEff r.ftype e = true → r.ldef = e
+
+def unitsOK (units : List (Nat × String × Nat)) : Prop := ∀ u ∈ units, u.1 = u.2.2 ∧ 0 < u.1
+
+theorem gen_units_ok : unitsOK Gen.Convert.memUnits := by
+  intro u hu
+  have h := List.all_eq_true.mp mem_units_consistent u hu
+  simp only [Bool.and_eq_true, beq_iff_eq, decide_eq_true_eq] at h
+  exact h
+
+/-! ## `yamlf`, `MemorySize` and the loader -/
+
+theorem yaml_text_roundtrip (x : Ext) (s : String) (h : safe x (.str s)) :
+    yamlOf x (yamlf (.str s)) = .str s := by
+  cases hp : isPlain s
+  · simp [yamlf, yamlOf, hp]
+  · simp [yamlf, yamlOf, hp, h hp]
+
+/-- `MemorySize.MarshalText` followed by `UnmarshalText` is the identity (units as regenerated) -/
+theorem mem_roundtrip (x : Ext) (units : List (Nat × String × Nat)) (hu : unitsOK units) (m : Nat) :
+    yamlOf x (marshalMem units m) = .memtext m := by
+  unfold marshalMem
+  split
+  · next h => simp [yamlOf, h]
+  · split
+    · next u hf =>
+      have hmem := List.mem_of_find?_eq_some hf
+      have hp := List.find?_some hf
+      simp only [beq_iff_eq] at hp
+      obtain ⟨h1, _⟩ := hu u hmem
+      simp only [yamlOf]
+      rw [← h1, Nat.div_mul_cancel (Nat.dvd_of_mod_eq_zero hp)]
+    · simp [yamlOf]
+
+theorem expected_of_ne (x : Ext) (r : Row) (v : V1) (hh : r.helper ≠ .secondsToDuration) :
+    expected x r v = expectedBase x r.ftype v := by
+  unfold expected
+  cases hr : r.helper <;> cases v <;> simp_all
+
+theorem applyDefault_of_zeroOK (r : Row) (e : Eff) (hz : zeroOK r e) :
+    applyDefault r.ftype r.ldef e = e := by
+  unfold applyDefault
+  by_cases h : isZeroEff r.ftype e = true
+  · rw [if_pos h]; exact hz h
+  · rw [if_neg h]
+
+/-- what `yamlf` writes for a value of the field's type is decoded to that value -/
+theorem decode_yamlf (x : Ext) (ft : FType) (v : V1) (hft : ft ≠ .stringarray)
+    (hv : typed x ft v = true) (hs : safe x v) :
+    decode x ft (yamlOf x (yamlf v)) = expectedBase x ft v := by
+  cases ft <;> cases v <;> simp [typed] at hv hft
+  case string.str s | hostport.str s | url.str s =>
+    rw [yaml_text_roundtrip x s hs]; simp [decode, expectedBase]
+  case int.int n | bool.bool b | defaulttrue.bool b | memorysize.int n =>
+    simp [yamlf, yamlOf, decode, expectedBase]
+  case percentage.int n =>
+    simp [yamlf, yamlOf, decode, expectedBase, hv]
+  case duration.str s =>
+    rw [yaml_text_roundtrip x s hs]
+    obtain ⟨ns, hns⟩ := Option.isSome_iff_exists.mp hv
+    simp [decode, expectedBase, hns]
+
+/-! ## convert_preserves, per helper kind -/
+
+/-- an active line written by `yamlf` is read back as the v1 value -/
+theorem line_preserves (x : Ext) (r : Row) (v : V1)
+    (hh : r.helper ≠ .secondsToDuration) (hft : r.ftype ≠ .stringarray)
+    (hv : typed x r.ftype v = true) (hs : safe x v) (hz : zeroOK r (expected x r v)) :
+    effective x r (.line (yamlf v)) = expected x r v := by
+  rw [expected_of_ne x r v hh] at hz ⊢
+  simp only [effective, decode_yamlf x r.ftype v hft hv hs]
+  exact applyDefault_of_zeroOK r _ hz
+
+/-- two values of the field's type that print alike (`_equivalent`) are the same setting -/
+theorem equivalent_expected (x : Ext) (ft : FType) (v d : V1) (hft : ft ≠ .stringarray)
+    (hv : typed x ft v = true) (hd : typed x ft d = true) (he : equivalent x v d = true) :
+    expectedBase x ft v = expectedBase x ft d := by
+  cases ft <;> cases v <;> cases d <;> simp [typed] at hv hd hft <;>
+    simp [equivalent, fmtV] at he <;> try (subst he; rfl)
+  all_goals (rename_i a b; cases a <;> cases b <;> simp_all)
+
+/-- **convert_preserves (nonDefaultOnly)** — for every v1 value of the field's type the loaded v2
+value is the v1 value: when it differs from the template default it is written and read back,
+when it equals the default the line is omitted and the loader default (= template default,
+`table_defaults_agree`) applies. -/
+theorem convert_preserves_nonDefaultOnly (x : Ext) (r : Row) (v dflt : V1)
+    (hh : r.helper ≠ .secondsToDuration) (hft : r.ftype ≠ .stringarray)
+    (hv : typed x r.ftype v = true) (hd : typed x r.ftype dflt = true)
+    (hdef : r.ldef = expected x r dflt)
+    (hs : safe x v) (hz : zeroOK r (expected x r v)) :
+    effective x r (nonDefaultOnly x (some v) dflt) = expected x r v := by
+  unfold nonDefaultOnly
+  by_cases he : equivalent x v dflt = true
+  · simp only [he, if_true, effective, hdef]
+    rw [expected_of_ne x r _ hh, expected_of_ne x r _ hh]
+    exact (equivalent_expected x r.ftype v dflt hft hv hd he).symm
+  · simp only [he]
+    exact line_preserves x r v hh hft hv hs hz
+
+/-- **default_omitted** — a v1 value equal to the template default produces no output line, so the
+v2 loader's default applies; by `table_defaults_agree` that is the same value. -/
+theorem default_omitted (x : Ext) (r : Row) (v dflt : V1) (he : equivalent x v dflt = true) :
+    nonDefaultOnly x (some v) dflt = .comment ∧
+      effective x r (nonDefaultOnly x (some v) dflt) = r.ldef := by
+  simp [nonDefaultOnly, he, effective]
+
+/-- **convert_preserves (nonEmptyString)** — string-typed fields: the empty string is left to the
+loader default, everything else is written and read back. -/
+theorem convert_preserves_nonEmptyString (x : Ext) (r : Row) (v : V1)
+    (hh : r.helper ≠ .secondsToDuration)
+    (hft : r.ftype = .string ∨ r.ftype = .hostport ∨ r.ftype = .url)
+    (hv : typed x r.ftype v = true) (hs : safe x v) (hz : zeroOK r (expected x r v)) :
+    effective x r (nonEmptyString (some v)) = expected x r v := by
+  have hna : r.ftype ≠ .stringarray := by rcases hft with h | h | h <;> simp [h]
+  unfold nonEmptyString
+  by_cases he : v = .str ""
+  · subst he
+    simp only [if_true, effective]
+    unfold zeroOK at hz
+    rw [expected_of_ne x r _ hh] at hz ⊢
+    rcases hft with h | h | h <;> simp only [h] at hz ⊢ <;>
+      exact hz (by simp [expectedBase, isZeroEff])
+  · simp only [he, if_false]
+    exact line_preserves x r v hh hna hv hs hz
+
+/-- **convert_preserves (nonZero)** — a zero value is left to the loader default, everything else
+is written and read back (`*DefaultTrue` flags excluded: see `helperTypeOK`). -/
+theorem convert_preserves_nonZero (x : Ext) (r : Row) (v : V1)
+    (hh : r.helper ≠ .secondsToDuration) (hft : r.ftype ≠ .stringarray) (hdt : r.ftype ≠ .defaulttrue)
+    (hne : r.ftype = .duration → v ≠ .str "")
+    (hv : typed x r.ftype v = true) (hs : safe x v) (hz : zeroOK r (expected x r v)) :
+    effective x r (nonZero (some v)) = expected x r v := by
+  unfold nonZero
+  by_cases h0 : isZeroV1 v = true
+  · simp only [h0, if_true, effective]
+    unfold zeroOK at hz
+    rw [expected_of_ne x r _ hh] at hz ⊢
+    cases hf : r.ftype <;> cases v <;> simp [hf, typed] at hv hft hdt hne <;>
+      simp [isZeroV1] at h0 <;> simp only [hf] at hz <;> subst h0 <;>
+      first
+        | exact absurd rfl hne
+        | exact hz (by simp [expectedBase, isZeroEff])
+  · simp only [h0]
+    exact line_preserves x r v hh hft hv hs hz
+
+/-- **convert_preserves (secondsToDuration)** — integer seconds `n` ↦ the duration `n` s. -/
+theorem convert_preserves_secondsToDuration (x : Ext) (r : Row) (n : Nat)
+    (hh : r.helper = .secondsToDuration) (hft : r.ftype = .duration)
+    (hz : zeroOK r (expected x r (.int n))) :
+    effective x r (secondsToDuration (some (.int n))) = expected x r (.int n) := by
+  have he : expected x r (.int n) = .dur (n * 1000000000) := by simp [expected, hh]
+  rw [he] at hz ⊢
+  have h1 : Model.Convert.secondsToDuration (some (.int n)) = .line (.dur (n * 1000000000)) := by
+    unfold Model.Convert.secondsToDuration intOf; simp
+  rw [h1]
+  simp only [effective, yamlOf]
+  have := applyDefault_of_zeroOK r _ hz
+  rw [hft] at this ⊢
+  exact this
+
+/-- **convert_preserves (memorysize)** — a byte count is printed with the largest unit that divides
+it and read back as the same number of bytes. -/
+theorem convert_preserves_memorysize (x : Ext) (units : List (Nat × String × Nat)) (hu : unitsOK units)
+    (r : Row) (n : Nat) (hh : r.helper ≠ .secondsToDuration) (hft : r.ftype = .memorysize)
+    (hz : zeroOK r (expected x r (.int n))) :
+    effective x r (memorysize units (some (.int n))) = expected x r (.int n) := by
+  rw [expected_of_ne x r _ hh] at hz ⊢
+  simp only [hft, expectedBase] at hz ⊢
+  have h1 : Model.Convert.memorysize units (some (.int n)) = .line (marshalMem units n) := by
+    unfold Model.Convert.memorysize intOf; simp
+  rw [h1]
+  simp only [effective]
+  rw [mem_roundtrip x units hu n]
+  have := applyDefault_of_zeroOK r _ hz
+  rw [hft] at this ⊢
+  exact this
+
+/-- **convert_preserves (choice)** — one of the listed choices is written and read back; the default
+is omitted. -/
+theorem convert_preserves_choice (x : Ext) (r : Row) (s dflt : String) (choices : List String)
+    (hh : r.helper ≠ .secondsToDuration) (hft : r.ftype = .string)
+    (hc : s = dflt ∨ s ∈ choices) (hdef : r.ldef = .str dflt)
+    (hs : safe x (.str s)) (hz : zeroOK r (expected x r (.str s))) :
+    effective x r (choice x (some (.str s)) choices dflt) = expected x r (.str s) := by
+  have he : expected x r (.str s) = .str s := by
+    rw [expected_of_ne x r _ hh]; simp [hft, expectedBase]
+  unfold choice
+  simp only [fmtV]
+  by_cases h1 : (s == dflt) = true
+  · simp only [h1, if_true, effective, hdef, he]
+    simp only [beq_iff_eq] at h1
+    rw [h1]
+  · have h2 : choices.any (· == s) = true := by
+      simp only [beq_iff_eq] at h1
+      rcases hc with h | h
+      · exact absurd h h1
+      · exact List.any_eq_true.mpr ⟨s, h, by simp⟩
+    simp only [h1, h2, if_true]
+    exact line_preserves x r (.str s) hh (by simp [hft]) (by simp [hft, typed]) hs hz
+
+/-- **convert_preserves (renderStringarray)** — a non-empty list is written item by item and read
+back as the same list; an empty list is left to the loader default. -/
+theorem convert_preserves_renderStringarray (x : Ext) (r : Row) (l : List String)
+    (hh : r.helper ≠ .secondsToDuration) (hft : r.ftype = .stringarray)
+    (hs : safe x (.strs l)) (hz : zeroOK r (expected x r (.strs l))) :
+    effective x r (renderStringarray (some (.strs l))) = expected x r (.strs l) := by
+  rw [expected_of_ne x r _ hh] at hz ⊢
+  simp only [hft, expectedBase] at hz ⊢
+  cases l with
+  | nil =>
+    have h1 : renderStringarray (some (.strs [])) = .comment := by simp [renderStringarray]
+    rw [h1]
+    simp only [effective]
+    exact hz (by simp [hft, isZeroEff])
+  | cons a t =>
+    have hall : (a :: t).all (fun s => x.yaml s == .str) = true := by
+      apply List.all_eq_true.mpr
+      intro s hm
+      simp [hs s hm]
+    have hy : yamlOf x (.items (a :: t)) = .strs (a :: t) := by
+      show (if (a :: t).all (fun s => x.yaml s == .str) = true then YV.strs (a :: t) else YV.bad) = _
+      rw [if_pos hall]
+    have h1 : renderStringarray (some (.strs (a :: t))) = .line (.items (a :: t)) := by
+      simp [renderStringarray]
+    rw [h1]
+    simp only [effective]
+    rw [hy]
+    have := applyDefault_of_zeroOK r _ hz
+    rw [hft] at this ⊢
+    exact this
+
+/-- a setting that is absent from the v1 file is left to the v2 loader's default by every helper
+that carries a value -/
+theorem absent_keeps_default (x : Ext) (units : List (Nat × String × Nat)) (r : Row) (d : Data)
+    (hf : fetch d r.key = none)
+    (hh : r.helper = .nonDefaultOnly ∨ r.helper = .nonEmptyString ∨ r.helper = .nonZero ∨
+      r.helper = .secondsToDuration ∨ r.helper = .memorysize ∨ r.helper = .choice ∨
+      r.helper = .renderStringarray)
+    (ha : r.helper = .nonDefaultOnly → r.arg.isSome) :
+    effective x r (convertRow x units d r) = r.ldef := by
+  unfold convertRow
+  rcases hh with h | h | h | h | h | h | h <;> simp only [h, hf]
+  · obtain ⟨a, ha'⟩ := Option.isSome_iff_exists.mp (ha h)
+    simp [ha', nonDefaultOnly, effective]
+  all_goals simp [nonEmptyString, nonZero, secondsToDuration, memorysize, choice, renderStringarray, effective]
+
+/-! ## convert_preserves for a row of the table -/
+
+/-- the v1 value is one the row can carry: of the field's type (integer seconds for a
+`secondsToDuration` row, integer bytes for `memorysize`, a listed choice for `choice`) -/
+def validFor (x : Ext) (r : Row) (v : V1) : Prop :=
+  match r.helper with
+  | .secondsToDuration => ∃ n, v = .int n
+  | .choice => ∃ s, v = .str s ∧ (s = argStr r.arg ∨ s ∈ r.choices)
+  | _ => typed x r.ftype v = true ∧ (r.ftype = .duration → v ≠ .str "")
+
+/-- the row is well formed: helper fits the field type (`table_helper_types`), the template default
+has the field's type and is what the loader defaults to (`table_defaults_agree`) -/
+def rowOK (x : Ext) (r : Row) : Prop :=
+  helperTypeOK r.helper r.ftype = true ∧
+  (r.helper = .nonDefaultOnly → ∃ a, r.arg = some a ∧ typed x r.ftype a = true ∧ r.ldef = expected x r a) ∧
+  (r.helper = .choice → r.ldef = .str (argStr r.arg))
+
+/-- **convert_preserves_partial** — for every row of the conversion table that carries a value, every v1
+value the row can carry, written anywhere `_fetch` finds it: the value the v2 loader ends up with
+is the v1 value, provided unquoted text survives YAML (`safe`) and an explicit zero is only given
+where zero is the default (`zeroOK`).  Without these two hypotheses the statement is false
+(`full_statement_refuted`). -/
+theorem convert_preserves_partial (x : Ext) (units : List (Nat × String × Nat)) (hu : unitsOK units)
+    (r : Row) (d : Data) (v : V1)
+    (hk : r.helper = .nonDefaultOnly ∨ r.helper = .nonEmptyString ∨ r.helper = .nonZero ∨
+      r.helper = .secondsToDuration ∨ r.helper = .memorysize ∨ r.helper = .choice ∨
+      r.helper = .renderStringarray)
+    (hr : rowOK x r) (hf : fetch d r.key = some v) (hv : validFor x r v)
+    (hs : safe x v) (hz : zeroOK r (expected x r v)) :
+    effective x r (convertRow x units d r) = expected x r v := by
+  obtain ⟨hok, hnd, hch⟩ := hr
+  unfold convertRow
+  rcases hk with h | h | h | h | h | h | h <;> simp only [h, hf] <;>
+    simp only [h, validFor] at hv <;> simp only [h, helperTypeOK] at hok
+  · -- nonDefaultOnly
+    obtain ⟨a, ha, hta, hda⟩ := hnd h
+    simp only [ha]
+    have hft : r.ftype ≠ .stringarray := by
+      intro hc; simp [hc] at hok
+    exact convert_preserves_nonDefaultOnly x r v a (by simp [h]) hft hv.1 hta hda hs hz
+  · -- nonEmptyString
+    have hft : r.ftype = .string ∨ r.ftype = .hostport ∨ r.ftype = .url := by
+      have : (r.ftype = .string ∨ r.ftype = .hostport) ∨ r.ftype = .url := by
+        simpa [Bool.or_eq_true] using hok
+      rcases this with (h | h) | h
+      · exact Or.inl h
+      · exact Or.inr (Or.inl h)
+      · exact Or.inr (Or.inr h)
+    exact convert_preserves_nonEmptyString x r v (by simp [h]) hft hv.1 hs hz
+  · -- nonZero
+    have h1 : r.ftype ≠ .stringarray := by intro hc; simp [hc] at hok
+    have h2 : r.ftype ≠ .defaulttrue := by intro hc; simp [hc] at hok
+    exact convert_preserves_nonZero x r v (by simp [h]) h1 h2 hv.2 hv.1 hs hz
+  · -- secondsToDuration
+    obtain ⟨n, rfl⟩ := hv
+    exact convert_preserves_secondsToDuration x r n h (by simpa using hok) hz
+  · -- memorysize
+    have hft : r.ftype = .memorysize := by simpa using hok
+    obtain ⟨hty, _⟩ := hv
+    cases v <;> simp [hft, typed] at hty
+    exact convert_preserves_memorysize x units hu r _ (by simp [h]) hft hz
+  · -- choice
+    obtain ⟨s, rfl, hc⟩ := hv
+    exact convert_preserves_choice x r s (argStr r.arg) r.choices (by simp [h]) (by simpa using hok) hc
+      (hch h) hs hz
+  · -- renderStringarray
+    have hft : r.ftype = .stringarray := by simpa using hok
+    obtain ⟨hty, _⟩ := hv
+    cases v <;> simp [hft, typed] at hty
+    exact convert_preserves_renderStringarray x r _ (by simp [h]) hft hs hz
+
+/-! ## the statement at full strength, and why it fails -/
+
+/-- The property as stated, for one setting: every valid v1 value of a row is the effective v2 value. -/
+def FullStatement : Prop :=
+  ∀ (x : Ext) (units : List (Nat × String × Nat)) (r : Row) (d : Data) (v : V1),
+    unitsOK units →
+    (r.helper = .nonDefaultOnly ∨ r.helper = .nonEmptyString ∨ r.helper = .nonZero ∨
+      r.helper = .secondsToDuration ∨ r.helper = .memorysize ∨ r.helper = .choice ∨
+      r.helper = .renderStringarray) →
+    rowOK x r → fetch d r.key = some v → validFor x r v →
+    effective x r (convertRow x units d r) = expected x r v
+
+/-- YAML as far as the witnesses need it: `true` is a boolean, `*` is not a scalar at all. -/
+def wx : Ext where
+  yaml := fun s => if s = "true" then .bool else if s = "*" then .err else .str
+  dur := fun s => if s = "0s" then some 0 else if s = "1m" then some 60000000000 else none
+  fmtNat := fun _ => "n"
+  lower := id
+
+/-- `General.DatasetPrefix` (alphanumeric string, default "") -/
+def wRowPrefix : Row :=
+  { group := "General", field := "DatasetPrefix", key := ⟨"DatasetPrefix", [], "DatasetPrefix"⟩,
+    helper := .nonDefaultOnly, arg := some (.str ""), choices := [], cond := .bad, ftype := .string,
+    ldef := .str "", argEff := .str "" }
+
+/-- `GRPCServerParameters.MaxConnectionIdle` (duration, default 1m, zero allowed by the validator) -/
+def wRowIdle : Row :=
+  { group := "GRPCServerParameters", field := "MaxConnectionIdle",
+    key := ⟨"GRPCServerParameters.MaxConnectionIdle", ["GRPCServerParameters"], "MaxConnectionIdle"⟩,
+    helper := .nonDefaultOnly, arg := some (.str "1m"), choices := [], cond := .bad, ftype := .duration,
+    ldef := .dur 60000000000, argEff := .dur 60000000000 }
+
+/-- `AccessKeys.ReceiveKeys` (originally `APIKeys`) -/
+def wRowKeys : Row :=
+  { group := "AccessKeys", field := "ReceiveKeys", key := ⟨"APIKeys", [], "APIKeys"⟩,
+    helper := .renderStringarray, arg := some (.str "your-key-goes-here"), choices := [], cond := .bad,
+    ftype := .stringarray, ldef := .strs [], argEff := .str "your-key-goes-here" }
+
+/-- **full_statement_refuted** — witness: the valid v1 setting `DatasetPrefix = "true"` is written
+as `DatasetPrefix: true`, read by YAML as a boolean, and the v2 validator refuses the file. -/
+theorem full_statement_refuted : ¬ FullStatement := by
+  intro h
+  have := h wx [] wRowPrefix [("DatasetPrefix", .val (.str "true"))] (.str "true")
+    (by intro u hu; cases hu) (Or.inl rfl)
+    ⟨by decide, by intro _; exact ⟨.str "", rfl, by decide, by decide⟩, by intro h; cases h⟩
+    (by decide) ⟨by decide, by intro h; cases h⟩
+  revert this
+  decide
+
+/-- second witness (the loader, not the converter): an explicit `"0s"` comes back as the default -/
+theorem explicit_zero_reverts :
+    effective wx wRowIdle (convertRow wx [] [("GRPCServerParameters", .grp [("MaxConnectionIdle", .str "0s")])] wRowIdle)
+      = .dur 60000000000 ∧
+    expected wx wRowIdle (.str "0s") = .dur 0 := by decide
+
+/-- third witness: the v1 default `APIKeys = ["*"]` is written as `- *`, which is not YAML -/
+theorem star_key_unreadable :
+    effective wx wRowKeys (convertRow wx [] [("APIKeys", .val (.strs ["*"]))] wRowKeys) = .invalid ∧
+    expected wx wRowKeys (.strs ["*"]) = .strs ["*"] := by decide
+
+/-! Non-vacuity of `convert_preserves_partial`: concrete rows and values, evaluated by the kernel. -/
+example : effective wx wRowPrefix (convertRow wx [] [("DatasetPrefix", .val (.str "prod1"))] wRowPrefix) = .str "prod1" := by decide
+example : effective wx wRowPrefix (convertRow wx [] [("DatasetPrefix", .val (.str "my-team"))] wRowPrefix) = .str "my-team" := by decide
+example : convertRow wx [] [("DatasetPrefix", .val (.str "my-team"))] wRowPrefix = .line (.text "my-team" true) := by decide
+example : convertRow wx [] [("DatasetPrefix", .val (.str "prod1"))] wRowPrefix = .line (.text "prod1" false) := by decide
+example : convertRow wx [] [("GRPCServerParameters", .grp [("MaxConnectionIdle", .str "1m")])] wRowIdle = .comment := by decide
+example : effective wx wRowKeys (convertRow wx [] [("APIKeys", .val (.strs ["abc", "def"]))] wRowKeys) = .strs ["abc", "def"] := by decide
+example : yamlOf wx (marshalMem Gen.Convert.memUnits 1500000000) = .memtext 1500000000 := by decide
+example : marshalMem Gen.Convert.memUnits 1500000000 = .mem 1500 1000000 := by decide
+example : marshalMem Gen.Convert.memUnits 2147483648 = .mem 2 1073741824 := by decide
+
+/-! ## the whole file -/
+
+theorem rowEffs_map (x : Ext) (T : List Row) (f : Row → Out) :
+    rowEffs x T (T.map f) = T.map (fun r => effective x r (f r)) := by
+  induction T with
+  | nil => rfl
+  | cons r rs ih => simp [rowEffs, ih]
+
+/-- "Converting a valid v1 config yields a v2 file that passes v2 validation": whenever every row on
+its own yields something the loader accepts, the loader accepts the file. -/
+def FileStatement : Prop :=
+  ∀ (x : Ext) (units : List (Nat × String × Nat)) (T : List Row) (dep : List Key) (dg : List String) (d : Data),
+    (∀ r ∈ T, effective x r (convertRow x units d r) ≠ .invalid) →
+    loads x T (convertFile x units T dep dg d) = true
+
+/-- **deprecated_key_blocks_conversion** — as soon as the v1 file contains a key that
+`removeDeprecated` knows (e.g. `InMemCollector.CacheCapacity`), nothing is converted: the output is
+the v1 data written back, which the v2 loader refuses. -/
+theorem deprecated_key_blocks_conversion (x : Ext) (units : List (Nat × String × Nat)) (T : List Row)
+    (dep : List Key) (dg : List String) (d : Data) (k : Key) (hk : k ∈ dep) (hp : (fetch d k).isSome = true) :
+    convertFile x units T dep dg d = .dump ∧ loads x T (convertFile x units T dep dg d) = false := by
+  have h : deprecatedPresent dep dg d = true := by
+    unfold deprecatedPresent
+    simp only [Bool.or_eq_true]
+    exact Or.inl (List.any_eq_true.mpr ⟨k, hk, hp⟩)
+  simp [convertFile, h, loads]
+
+/-- **file_statement_refuted** — witness: a v1 file whose only setting is
+`InMemCollector.CacheCapacity` (present in the repo's own `config_complete.1.x.toml`). -/
+theorem file_statement_refuted : ¬ FileStatement := by
+  intro h
+  have := h wx [] [] [⟨"InMemCollector.CacheCapacity", ["InMemCollector"], "CacheCapacity"⟩] []
+    [("InMemCollector", .grp [("CacheCapacity", .int 1000)])] (by intro r hr; cases hr)
+  revert this
+  decide
+
+/-- **file_converted_partial** — without a key of a deprecated field in the file, the template is
+executed row by row, and the loader accepts the result whenever it accepts every row. -/
+theorem file_converted_partial (x : Ext) (units : List (Nat × String × Nat)) (T : List Row)
+    (dep : List Key) (dg : List String) (d : Data)
+    (hd : deprecatedPresent dep dg d = false)
+    (hr : ∀ r ∈ T, effective x r (convertRow x units d r) ≠ .invalid) :
+    convertFile x units T dep dg d = .rows (T.map (convertRow x units d)) ∧
+    loads x T (convertFile x units T dep dg d) = true := by
+  have hnp : (T.map (convertRow x units d)).any (· == .panic) = false := by
+    rw [Bool.eq_false_iff]
+    intro hc
+    obtain ⟨o, ho, hop⟩ := List.any_eq_true.mp hc
+    obtain ⟨r, hrm, hro⟩ := List.mem_map.mp ho
+    simp only [beq_iff_eq] at hop
+    have := hr r hrm
+    rw [hro, hop] at this
+    exact this rfl
+  have hc : convertFile x units T dep dg d = .rows (T.map (convertRow x units d)) := by
+    simp [convertFile, hd, hnp]
+  refine ⟨hc, ?_⟩
+  rw [hc]
+  simp only [loads, rowEffs_map]
+  apply List.all_eq_true.mpr
+  intro e he
+  obtain ⟨r, hrm, hre⟩ := List.mem_map.mp he
+  have := hr r hrm
+  rw [hre] at this
+  simpa using this
+
+/-! ## rules files -/
+
+/-- the v1 value as a v2 rules value -/
+def rvOf : V1 → RV
+  | .int n => .int n
+  | .str s => .str s
+  | .bool b => .bool b
+  | .strs l => .strs l
+  | .flt s => .flt s
+  | .tbl => .null
+
+/-- the v1 value has the type of the struct field -/
+def kindFits (kind : String) : V1 → Prop
+  | .int _ => kind = "int" ∨ kind = "any"
+  | .str _ => kind = "string" ∨ kind = "any"
+  | .bool _ => kind = "bool" ∨ kind = "any"
+  | .strs _ => kind = "strs" ∨ kind = "any"
+  | .flt _ => kind = "float" ∨ kind = "any"
+  | .tbl => False
+
+def specialKey (k : String) : Prop := k = "clearfrequencysec" ∨ k = "adjustmentinterval"
+
+/-- **rules_preserved (field)** — a v1 sampler / rule / condition setting whose lower-cased name is
+the JSON tag of a field of the target struct arrives, unchanged, under that field's v2 (YAML) name;
+the case of the v1 key does not matter. -/
+theorem rules_field_preserved (x : Ext) (T : List SField) (S key : String) (v : V1) (f : SField)
+    (hl : lookupField T S (x.lower key) = some f) (hn : ¬ specialKey (x.lower key))
+    (hk : kindFits f.kind v) :
+    convField x T S key v = .field f.yaml (rvOf v) := by
+  have h1 : x.lower key ≠ "clearfrequencysec" := fun h => hn (Or.inl h)
+  have h2 : x.lower key ≠ "adjustmentinterval" := fun h => hn (Or.inr h)
+  simp only [convField, transformKV, h1, h2, if_false, hl]
+  cases v <;> simp only [kindFits] at hk <;> rcases hk with hk | hk <;>
+    simp [convKind, hk, rvOf]
+
+/-- **rules_preserved (ClearFrequencySec)** — integer seconds under the v1 name `ClearFrequencySec`
+arrive as the duration `n` s under `ClearFrequency`. -/
+theorem rules_clearfrequencysec (x : Ext) (T : List SField) (S key : String) (n : Nat) (f : SField)
+    (hkey : x.lower key = "clearfrequencysec")
+    (hl : lookupField T S "clearfrequency" = some f) (hk : f.kind = "dur") :
+    convField x T S key (.int n) = .field f.yaml (.dur (n * 1000000000)) := by
+  simp [convField, transformKV, hkey, secsToDur, hl, convKind, hk]
+
+/-- **rules_preserved (AdjustmentInterval)** — integer seconds become the duration `n` s. -/
+theorem rules_adjustmentinterval (x : Ext) (T : List SField) (S key : String) (n : Nat) (f : SField)
+    (hkey : x.lower key = "adjustmentinterval")
+    (hl : lookupField T S "adjustmentinterval" = some f) (hk : f.kind = "dur") :
+    convField x T S key (.int n) = .field f.yaml (.dur (n * 1000000000)) := by
+  simp [convField, transformKV, hkey, secsToDur, hl, convKind, hk]
+
+/-- a duration given as text (`ClearFrequency = "60s"`) is parsed -/
+theorem rules_duration_text (x : Ext) (T : List SField) (S key s : String) (ns : Nat) (f : SField)
+    (hl : lookupField T S (x.lower key) = some f) (hn : x.lower key ≠ "clearfrequencysec")
+    (hk : f.kind = "dur") (hd : x.dur s = some ns) :
+    convField x T S key (.str s) = .field f.yaml (.dur ns) := by
+  by_cases ha : x.lower key = "adjustmentinterval"
+  · simp [convField, transformKV, ha, secsToDur, convKind, hd] at hl ⊢
+    simp [hl, hk]
+  · simp [convField, transformKV, hn, ha, hl, convKind, hk, hd]
+
+/-- a v1 key the target struct has no field for is dropped (e.g. `AddSampleRateKeyToTrace`) -/
+theorem rules_unknown_dropped (x : Ext) (T : List SField) (S key : String) (v : V1)
+    (hn : ¬ specialKey (x.lower key)) (hl : lookupField T S (x.lower key) = none) :
+    convField x T S key v = .dropped := by
+  have h1 : x.lower key ≠ "clearfrequencysec" := fun h => hn (Or.inl h)
+  have h2 : x.lower key ≠ "adjustmentinterval" := fun h => hn (Or.inr h)
+  simp [convField, transformKV, h1, h2, hl]
+
+/-- `defaults.Set` only ever replaces a zero -/
+theorem rules_default_only_for_zero (f : SField) (v : RV) (h : isZeroRV v = false) :
+    applyRDefault f v = v := by
+  unfold applyRDefault
+  cases RV.ofTuple f.dflt <;> simp [h]
+
+/-- **rules_preserved** — the loaded v2 value of a field is the v1 value of the first key of the
+table that converts to it (non-zero, or zero where the struct has no other default). -/
+theorem rules_preserved (x : Ext) (T : List SField) (S : String) (pre post : List (String × V1))
+    (key : String) (v : V1) (f : SField)
+    (hy : T.find? (fun g => g.struct == S && g.yaml == f.yaml) = some f)
+    (hl : lookupField T S (x.lower key) = some f) (hn : ¬ specialKey (x.lower key))
+    (hk : kindFits f.kind v)
+    (hpre : ∀ kv ∈ pre, ∀ rv, convField x T S kv.1 kv.2 ≠ .field f.yaml rv)
+    (hz : isZeroRV (rvOf v) = false) :
+    fieldValue x T S (pre ++ (key, v) :: post) f.yaml = some (rvOf v) := by
+  have hc := rules_field_preserved x T S key v f hl hn hk
+  unfold fieldValue
+  simp only [hy]
+  have hfs : (pre ++ (key, v) :: post).findSome? (pickField x T S f.yaml) = some (rvOf v) := by
+    rw [List.findSome?_append]
+    have hnone : pre.findSome? (pickField x T S f.yaml) = none := by
+      rw [List.findSome?_eq_none_iff]
+      intro kv hm
+      have := hpre kv hm
+      unfold pickField
+      cases hcv : convField x T S kv.1 kv.2 with
+      | field y w =>
+        by_cases hyy : y = f.yaml
+        · exact absurd (hyy ▸ hcv) (this w)
+        · simp [hyy]
+      | dropped => rfl
+      | error => rfl
+    simp [hnone, pickField, hc]
+  rw [hfs]
+  simp [rules_default_only_for_zero f _ hz]
+
+/-- "a valid v1 condition becomes a v2 condition the validator accepts": its `Value` is not null. -/
+def RulesStatement : Prop :=
+  ∀ (x : Ext) (kvs : List (String × V1)),
+    (∃ s, (x.lower "field", V1.str s) ∈ kvs) → (∃ s, (x.lower "operator", V1.str s) ∈ kvs) →
+    fieldValue x sfields "@cond" kvs "Value" ≠ some .null
+
+/-- **rules_statement_refuted** — witness: the valid v1 condition `field = "x", operator = "exists"`
+has no value; the converter writes `Value: null`, which the v2 rules validator refuses. -/
+theorem rules_statement_refuted : ¬ RulesStatement := by
+  intro h
+  have := h wx [("field", .str "x"), ("operator", .str "exists")] ⟨"x", by decide⟩ ⟨"exists", by decide⟩
+  revert this
+  decide
+
+/-! Non-vacuity for the rules theorems, on the regenerated struct table. -/
+example : convField wx sfields "DynamicSampler" "clearfrequencysec" (.int 60) = .field "ClearFrequency" (.dur 60000000000) := by decide
+example : convField wx sfields "EMADynamicSampler" "goalsamplerate" (.int 15) = .field "GoalSampleRate" (.int 15) := by decide
+example : convField wx sfields "DynamicSampler" "addsampleratekeytotrace" (.bool true) = .dropped := by decide
+example : fieldValue wx sfields "@cond" [("field", .str "status"), ("operator", .str "="), ("value", .int 500)] "Value" = some (.int 500) := by decide
+example : fieldValue wx sfields "DeterministicSampler" [] "SampleRate" = some (.int 1) := by decide
 
 end Refinery.Props.C38
